@@ -1,5 +1,6 @@
 import RxnModel.Proofs.LsmScan
 import RxnModel.Proofs.LsmScan2
+import RxnModel.Proofs.LsmOrder
 import RxnModel.Proofs.CompactionSound
 /-!
 # C07 — DKV reads return the latest write at every moment
@@ -13,6 +14,17 @@ Specification: `Spec` = the list of writes, newest first; `Spec.get` = the last 
 obligation that belongs to C18; it is proved there (`Rxn.Compaction.compactionSound`, `Proofs/CompactionSound.lean`)
 and used here, so every theorem below is unconditional and covers histories with compaction commits at arbitrary
 points. (The `_noCompact` versions do not depend on the compaction proof.)
+
+Two descriptions of the reads. `Model/Lsm.lean` (`get`, `getBResult`, `scan`, `scan2`) describes the level list
+order-insensitively (deeper level: "the table whose range contains the key"; scan: merge of all tables).
+`Model/Rescale.lean` + `Model/LsmCode.lean` (`Rescale.getR`, `getBResultR`, `Rescale.scanR`, `scan2R`) model what
+`dkv/sst/level_list.go` executes: `SearchUnique` over `RangeKeyCompare` per deeper level for point reads, and for
+scans `AllTablesForPrefix` (level 0 filtered by `RangeContainsPrefix`, deeper levels `slices.BinarySearchFunc` over
+`RangePrefixCompare` plus the forward walk), with the compare functions regenerated from `dkv/sst/table.go`. The
+`*_code` theorems below are about the latter (and are what the driver executes); they rest on the additional
+invariant `DeepOrdered` (every deeper level ascending by key range), proved for every reachable state
+(`reachable_ordered`), under which the binary searches find what the order-insensitive description finds
+(`code_reads_agree`).
 -/
 namespace Rxn.C07
 open Rxn Rxn.Lsm
@@ -81,6 +93,86 @@ theorem two_phase_scan (as₁ as₂ : List Act) (sA sB : State) (m m' : Spec)
   subst hm
   exact ⟨rfl, scan2_spec hA.1 hB.1 hsub p⟩
 
+/-! ## the reads with the table selection the code performs -/
+
+/-- every reachable state keeps the deeper levels ascending by key range (what `SearchUnique` and
+`slices.BinarySearchFunc` in `level_list.go` rely on), together with the refinement invariant -/
+theorem reachable_ordered (as : List Act) (s : State) (m : Spec) (h : runBoth {} [] as = some (s, m)) :
+    Inv s m ∧ ReadInv s m ∧ DeepOrdered s :=
+  runBoth_inv_ordered as {} [] s m inv_init readInv_init deepOrdered_init h
+
+/-- in every reachable state the binary searches of `tablesForKey` / `AllTablesForPrefix` give the same answers as
+the order-insensitive descriptions: same point read, same second phase of a parked read, same scan -/
+theorem code_reads_agree (as : List Act) (s : State) (m : Spec) (h : runBoth {} [] as = some (s, m))
+    (k p : Bytes) :
+    Rescale.getR s k = get s k ∧ getBResultR s = getBResult s ∧ Rescale.scanR s p = scan s p := by
+  obtain ⟨hi, _, ho⟩ := reachable_ordered as s m h
+  exact ⟨getR_eq_get hi ho k, getBResultR_eq hi ho,
+    scan2R_eq_scan2 hi hi ho (fun r hr => Or.inl hr) p⟩
+
+/-- **`DB.Get` as the code computes it** (memtables newest first, level 0 newest first, `SearchUnique` over
+`RangeKeyCompare` on every deeper level) returns the most recently written entry in every reachable state -/
+theorem get_code_returns_latest_write (as : List Act) (s : State) (m : Spec)
+    (h : runBoth {} [] as = some (s, m)) (k : Bytes) :
+    Rescale.getR s k = Spec.get m k ∧ answer (Rescale.getR s k) = answer (Spec.get m k) := by
+  obtain ⟨hi, _, ho⟩ := reachable_ordered as s m h
+  have : Rescale.getR s k = Spec.get m k := by rw [getR_eq_get hi ho, get_eq_firstHit hi]; exact hi.hit k
+  exact ⟨this, by rw [this]⟩
+
+/-- a `Get` whose memtable phase and `LevelList.Get` (with its binary searches) are separated by arbitrary
+background commits returns the latest write -/
+theorem two_phase_read_code (as : List Act) (s : State) (m : Spec)
+    (h : runBoth {} [] as = some (s, m)) (k : Bytes) (r : Option Entry) (hr : s.reading = some (k, r)) :
+    getBResultR s = Spec.get m k := by
+  obtain ⟨hi, hri, ho⟩ := reachable_ordered as s m h
+  rw [getBResultR_eq hi ho]
+  exact getB_correct hi hri k r hr
+
+/-- **`DB.ScanPrefix` over the tables `AllTablesForPrefix` selects** returns exactly the live keys with the prefix,
+each once, ascending, with their latest values, in every reachable state -/
+theorem scan_code_returns_live_keys (as : List Act) (s : State) (m : Spec)
+    (h : runBoth {} [] as = some (s, m)) (p : Bytes) :
+    (Rescale.scanR s p).Pairwise (fun a b => Bytes.lt a.key b.key = true) ∧
+    ∀ e, e ∈ Rescale.scanR s p ↔ (Spec.get m e.key = some e ∧ e.del = false ∧ Bytes.hasPrefix e.key p = true) := by
+  obtain ⟨hi, _, ho⟩ := reachable_ordered as s m h
+  exact scan2R_spec hi hi ho (fun r hr => Or.inl hr) p
+
+/-- **two-phase `DB.ScanPrefix` as the code computes it**: memtables merged in `sA`, then — after arbitrary
+background activity without a foreground write — `AllTablesForPrefix` on the level list of `sB` -/
+theorem two_phase_scan_code (as₁ as₂ : List Act) (sA sB : State) (m m' : Spec)
+    (h1 : runBoth {} [] as₁ = some (sA, m)) (hnw : noWrite as₂ = true) (h2 : runBoth sA m as₂ = some (sB, m'))
+    (p : Bytes) :
+    m' = m ∧ (scan2R sA sB p).Pairwise (fun a b => Bytes.lt a.key b.key = true) ∧
+    ∀ e, e ∈ scan2R sA sB p ↔ (Spec.get m e.key = some e ∧ e.del = false ∧ Bytes.hasPrefix e.key p = true) := by
+  obtain ⟨hA, hrA, hoA⟩ := reachable_ordered as₁ sA m h1
+  obtain ⟨hB, _, hoB⟩ := runBoth_inv_ordered as₂ sA m sB m' hA hrA hoA h2
+  obtain ⟨hm, hsub⟩ := runBoth_noWrite sA.mems as₂ sA m sB m' hnw h2 (fun r hr => Or.inl hr)
+  subst hm
+  exact ⟨rfl, scan2R_spec hA hB hoB hsub p⟩
+
+/-- **a `ScanPrefix` iterator is a snapshot taken at the call**: both snapshots are taken when `DB.ScanPrefix` is
+called (memtable list in `sA`, level list in `sB`; `as₂ = []` when nothing runs in between), the iterator is
+consumed later in `sC` after further background activity `as₃` (flush and compaction commits, rotations — no
+foreground write: the iterator's consumer is the writer's goroutine). What it yields is fixed by the two snapshots
+(`scan2R sA sB p` does not mention `sC`) and is exactly the live latest entries with the prefix at the time of
+consumption, ascending — a flush that commits after the call and before the first advance loses nothing. -/
+theorem scan_is_snapshot_at_call (as₁ as₂ as₃ : List Act) (sA sB sC : State) (m m' m'' : Spec)
+    (h1 : runBoth {} [] as₁ = some (sA, m)) (hnw2 : noWrite as₂ = true) (h2 : runBoth sA m as₂ = some (sB, m'))
+    (hnw3 : noWrite as₃ = true) (h3 : runBoth sB m' as₃ = some (sC, m'')) (p : Bytes) :
+    m'' = m ∧ (scan2R sA sB p).Pairwise (fun a b => Bytes.lt a.key b.key = true) ∧
+    ∀ e, e ∈ scan2R sA sB p ↔ (Spec.get m'' e.key = some e ∧ e.del = false ∧ Bytes.hasPrefix e.key p = true) := by
+  obtain ⟨hm', hs, hmem⟩ := two_phase_scan_code as₁ as₂ sA sB m m' h1 hnw2 h2 p
+  obtain ⟨hm'', _⟩ := runBoth_noWrite sB.mems as₃ sB m' sC m'' hnw3 h3 (fun r hr => Or.inl hr)
+  subst hm''
+  subst hm'
+  exact ⟨rfl, hs, hmem⟩
+
+/-- the order of a deeper level matters to the code's reads and not to the order-insensitive description: on a
+level list whose level 1 is stored in descending range order (never reachable) `SearchUnique` misses the key -/
+example :
+    let s : State := { levels := [[], [⟨1, [⟨[2], 2, false, [20]⟩]⟩, ⟨0, [⟨[1], 1, false, [10]⟩]⟩, ⟨2, [⟨[0], 3, false, [30]⟩]⟩]] }
+    get s [2] = some ⟨[2], 2, false, [20]⟩ ∧ Rescale.getR s [2] = none := by decide +kernel
+
 /-! non-vacuity: a history with an overwrite, a delete, two rotations and a flush is accepted by the model, leaves
 the key in three containers, and reads the latest version -/
 def demo : List Act :=
@@ -121,6 +213,37 @@ example : twoPhase demoScanA demoScanB (fun _ sB => sB.levels.flatten.map (·.ru
 example : twoPhase demoScanA demoScanB (fun _ sB => sB.mems) = some [[]] := by decide +kernel
 /-- the opposite phase order is wrong on the same schedule -/
 example : twoPhase demoScanA demoScanB (fun sA sB => scan2 sB sA [1]) = some [⟨[1], 1, false, [10]⟩] := by
+  decide +kernel
+
+/-! non-vacuity of the `*_code` theorems: a history that builds a two-table level 1 (two flushes, then a compaction
+of both level-0 tables cut into two chunks), after which the binary searches are exercised: the point read of `[2]`
+must pick the second table of level 1, the scan of prefix `[2]` starts its forward walk there -/
+def demoDeep : List Act :=
+  [.put [1] [10], .put [2] [20], .rotate, .flushBegin 1, .flushCommit,
+   .put [2, 5] [25], .put [3] [30], .rotate, .flushBegin 1, .flushCommit,
+   .compact [0, 1] 1 [[⟨[1], 1, false, [10]⟩, ⟨[2], 2, false, [20]⟩], [⟨[2, 5], 3, false, [25]⟩, ⟨[3], 4, false, [30]⟩]],
+   .del [2]]
+
+example : (runBoth {} [] demoDeep).map (fun sm => sm.1.levels.map (fun l => l.map (·.id))) =
+    some [[], [2, 3], [], [], [], []] := by decide +kernel
+example : (runBoth {} [] demoDeep).map (fun sm => Rescale.getR sm.1 [2, 5]) = some (some ⟨[2, 5], 3, false, [25]⟩) := by
+  decide +kernel
+example : (runBoth {} [] demoDeep).map (fun sm => (Rescale.tablesForPrefix sm.1.levels [2]).map (·.id)) = some [2, 3] := by
+  decide +kernel
+example : (runBoth {} [] demoDeep).map (fun sm => (Rescale.tablesForPrefix sm.1.levels [3]).map (·.id)) = some [3] := by
+  decide +kernel
+example : (runBoth {} [] demoDeep).map (fun sm => Rescale.scanR sm.1 [2]) = some [⟨[2, 5], 3, false, [25]⟩] := by
+  decide +kernel
+example : twoPhase demoScanA demoScanB (fun sA sB => scan2R sA sB [1]) = some [⟨[1, 2], 3, false, [20]⟩] := by
+  decide +kernel
+
+/-! non-vacuity of `scan_is_snapshot_at_call`: the iterator is obtained after `demoScanA` (delete marker and `[1,2]`
+in the active memtable), then that memtable is rotated out, flushed and dequeued (`demoScanB` as `as₃`), then the
+iterator is consumed: it still yields `[1,2]`; a scan that took its memtable snapshot only at consumption time
+(lazily) together with the level list of the call would yield the deleted `[1]` and lose `[1,2]` -/
+example : twoPhase demoScanA demoScanB (fun sA _ => scan2R sA sA [1]) = some [⟨[1, 2], 3, false, [20]⟩] := by
+  decide +kernel
+example : twoPhase demoScanA demoScanB (fun sA sC => scan2R sC sA [1]) = some [⟨[1], 1, false, [10]⟩] := by
   decide +kernel
 
 end Rxn.C07
